@@ -1,6 +1,7 @@
 import Driver.Proto
 import Driver.C07
 import MediaSan.Vp8l.BitTrace
+import MediaSan.Vp8l.BufValidator
 namespace Driver.C19
 open MediaSan MediaSan.Vp8l
 
@@ -46,6 +47,35 @@ def handleApi (kv : KV) : String :=
     else s!"OK {id} tags=api,cap{if cap == 4096 then "4096" else "small"}{if impl.endsWith "EOF" then ",eof" else ""},len{min (bytes.length / 32) 9}"
   | _, _, _, _ => "ERR ? missing-field"
 
+/-- the verdict of the BUFFERED validator model (Vp8l/BufValidator.lean: every read through `BitBuf` of `cap` bytes,
+    the sub-image loop with its guarded refill and buffer-only accessors) - the counterpart of `Driver.C07.modelVerdict` -/
+def bufVerdict (kind : String) (data : Bytes) (w h cap : Nat) : String :=
+  if kind == "vp8l" then
+    if data.length < 5 then "err:parse:TruncatedChunk"
+    else
+      match parseVp8lHeader (ByteArray.mk data.toArray) with
+      | .error .invalidInput => "err:parse:InvalidInput"
+      | .error .unsupportedVersion => "err:parse:UnsupportedVp8lVersion"
+      | .ok (w, h) =>
+        match validateBuf cap (data.drop 5) w h .strict with
+        | .ok _ => "ok"
+        | .error e => Driver.C07.lerrName e
+  else
+    match data with
+    | [] => "err:parse:TruncatedChunk"
+    | f :: rest =>
+      if f.toNat &&& 29 != f.toNat then "err:parse:InvalidInput"
+      else if f.toNat % 2 == 1 then
+        match validateBuf cap rest w h .strict with
+        | .ok _ => "ok"
+        | .error e => Driver.C07.lerrName e
+      else "ok"
+
+/-- the capacities at which the buffered model is executed: all nine on ordinary inputs, the eight small ones on the
+    large synthetic streams (a list-based buffer of 4096 bytes costs a list walk per bit) -/
+def bufCaps (data : Bytes) (caps : List Nat) : List Nat :=
+  if data.length ≤ 4000 then caps else caps.filter (· ≤ 64)
+
 def handleSitu (kv : KV) : String :=
   match kv.get? "sub", kv.hex? "data", kv.get? "verdicts" with
   | some sub, some data, some verdicts =>
@@ -62,7 +92,12 @@ def handleSitu (kv : KV) : String :=
     | none =>
       if vs.any (·.2 == "panic") then s!"SPEC {id} which=no-panic sig=C19:situ:panic"
       else if m != ref then s!"DIFF {id} model={m} impl={ref}"
-      else s!"OK {id} tags=situ,{sub},{if ref == "ok" then "accepted" else "rejected"},len{min (data.length / 1000) 9}k"
+      else
+        -- the buffered model at the small capacities against the code's verdict at the same capacity
+        match (bufCaps data (vs.filterMap (·.1.toNat?))).find? (fun c => bufVerdict sub data w h c != ref) with
+        | some c => s!"DIFF {id} buffered-model-at-cap-{c}={bufVerdict sub data w h c} impl={ref}"
+        | none =>
+        s!"OK {id} tags=situ,{sub},{if ref == "ok" then "accepted" else "rejected"},len{min (data.length / 1000) 9}k,bufmodel{(bufCaps data (vs.filterMap (·.1.toNat?))).length}"
   | _, _, _ => "ERR ? missing-field"
 
 def handle (kv : KV) : String :=
